@@ -70,7 +70,7 @@ def _check_schema(file_to_be_checked: IO[str], state_manager: ComplianceToolStat
             state_manager.add_step('Read file and check if it is conform to the json syntax')
             json_to_be_checked = json.load(file_to_be_checked)
             state_manager.set_step_status(Status.SUCCESS)
-    except json.decoder.JSONDecodeError as error:
+    except (json.decoder.JSONDecodeError, UnicodeDecodeError) as error:
         state_manager.set_step_status(Status.FAILED)
         logger.error(error)
         state_manager.add_step('Validate file against official json schema')
@@ -149,7 +149,13 @@ def check_deserialization(file_path: str, state_manager: ComplianceToolStateMana
             state_manager.add_step('Read file {} and check if it is deserializable'.format(file_info))
         else:
             state_manager.add_step('Read file and check if it is deserializable')
-        obj_store = json_deserialization.read_aas_json_file(file_to_be_checked, failsafe=True)
+        try:
+            obj_store = json_deserialization.read_aas_json_file(file_to_be_checked, failsafe=True)
+        except (json.decoder.JSONDecodeError, UnicodeDecodeError) as error:
+            # the file is not even a JSON document
+            state_manager.set_step_status(Status.FAILED)
+            logger.error(error)
+            return model.DictObjectStore()
 
     state_manager.set_step_status_from_log()
 
@@ -221,7 +227,7 @@ def check_json_files_equivalence(file_path_1: str, file_path_2: str, state_manag
     try:
         state_manager.add_step('Check if data in files are equal')
         checker.check_object_store(obj_store_1, obj_store_2)
-    except (KeyError, AssertionError) as error:
+    except (KeyError, AssertionError, NotImplementedError) as error:
         state_manager.set_step_status(Status.FAILED)
         logger.error(error)
         return
